@@ -19,6 +19,13 @@ Static rules (DESIGN.md §C06, engine sa/tabchain.py):
               for lmax = 6 (literal bounds, input-independent control flow; products expanded, complex parts
               separated, FAC_LIST read from its initialiser, calloc'ed work arrays read as 0), store identical
               polynomials in r[0..2] and the recursion coefficients for all 49 (l, m)
+ sph-harmonic every Y_lm produced by recursive_sph_harm with the coefficient tables of setup_sph_harm_buffer (both executed
+              for lmax = 6; square roots of rationals kept exactly over square roots of primes; a double literal that is
+              the double nearest to sqrt(k) is read as sqrt(k)) is, after restoring the powers of r^2 that equal 1 on the
+              unit sphere, a homogeneous polynomial of degree l whose Laplacian (term-by-term) vanishes.  No reference
+              table: a missing recursion term or a wrong coefficient breaks harmonicity.
+ (l1-order also: the rows of the derivative table are read at multiples of the row length the caller passes, the
+              parameter python binds to <table>.shape[1])
  setup-invariance  Python set-up code (pyscf/*.py, dft/lcao_*.py, grids_indexer.py): values derived from
               mol.atom_coords()/atom_coord() reach call arguments, returns, stores or branch conditions only
               through differences of positions reduced by norm / dot / sum of squares over the Cartesian axis
@@ -234,6 +241,33 @@ def py_gaunt_rows(tree):
     return rows, closed, pf.qualname(fn)
 
 
+class StrideMismatch(Exception):
+    def __init__(self, fname, used, declared):
+        Exception.__init__(self, fname)
+        self.fname, self.used, self.declared = fname, used, declared
+
+
+def py_stride_binding(tree, cfunc, table_pos):
+    """python call `libcider.<cfunc>(..., T.ctypes.data_as(..), .., c_int(T.shape[1]), ..)` -> position of the argument
+    that carries the row length of the table passed at `table_pos` (None if no such call is written that way)"""
+    for rel in tree.glob("ciderpress/pyscf/*.py") + tree.glob("ciderpress/dft/lcao_*.py"):
+        if "/tests/" in rel:
+            continue
+        mod = tree.py(rel)
+        for call in ast.walk(mod):
+            if isinstance(call, ast.Call) and _lib_func(call.func) == cfunc and len(call.args) > table_pos:
+                t = call.args[table_pos]
+                while isinstance(t, (ast.Call, ast.Attribute)):
+                    t = t.func if isinstance(t, ast.Call) else t.value
+                if not isinstance(t, ast.Name):
+                    continue
+                for i, a in enumerate(call.args):
+                    if isinstance(a, ast.Call) and (pf.call_name(a) or "").endswith("c_int") and a.args \
+                            and pf.src(a.args[0]) == "%s.shape[1]" % t.id:
+                        return i, rel, call.lineno
+    return None
+
+
 def c_gaunt_row_axes(tu, fname, gaunt_idx, vec_idx, stride_names, plane_role=None):
     """{gaunt row: Cartesian component slot} for a C function that multiplies rows of the derivative
     table (parameter #gaunt_idx, row stride = an int parameter) into a 3-vector array (#vec_idx).
@@ -284,6 +318,28 @@ def c_gaunt_row_axes(tu, fname, gaunt_idx, vec_idx, stride_names, plane_role=Non
                     out = cc
         return out
 
+    # the rows of the table are addressed as base + k * U: U must be the row length the caller allocated the table
+    # with (the stride parameter), not any other quantity
+    idxs = []
+    for s in env["stores"]:
+        for m, c in s["value"].t.items():
+            for a, e in m:
+                if a[0] == "elem" and a[1] == "GAUNT":
+                    ix = Poly(dict(a[2]))
+                    if ix not in idxs:
+                        idxs.append(ix)
+    if len(idxs) >= 2:
+        base = min(idxs, key=lambda q: (len(q.t), len(q.text())))
+        diffs = [q - base for q in idxs if (q - base).t]
+        unit = min(diffs, key=lambda q: (len(q.t), len(q.text())))
+        want = Poly.atom(("sym", "param:" + stride_names[0]))
+        if all(any(d == unit.scale(k) for k in range(-8, 9) if k) for d in diffs):
+            for sgn in (1, -1):
+                for k in range(1, 9):
+                    if unit == want.scale(sgn * k):
+                        unit = want
+            if unit != want:
+                raise StrideMismatch(fname, unit.text(), stride_names[0])
     pairs = {}
     for s in env["stores"]:
         for m, c in s["value"].t.items():
@@ -362,7 +418,21 @@ def rule_l1_order(chk, tus):
             raise core.AnalysisError("%s: row-stride parameter %s vanished" % (fn, strides[0]))
         if plane and plane not in [p.get("name") for p in ps]:
             raise core.AnalysisError("%s: plane-stride parameter %s vanished" % (fn, plane))
-        ra = c_gaunt_row_axes(tu_, fn, gi, vi, strides, plane)
+        bind = py_stride_binding(tree, fn, gi)
+        if bind is not None and bind[0] < len(ps) and tc.ptype(ps[bind[0]]) == "int":
+            strides = (ps[bind[0]].get("name"),)  # the parameter python binds to <table>.shape[1]
+        inst_s = "%s addresses the rows of the derivative table with the row length it is given (%s)" % (fn, strides[0])
+        try:
+            ra = c_gaunt_row_axes(tu_, fn, gi, vi, strides, plane)
+        except StrideMismatch as sm:
+            chk.violation("l1-order", F[rel], fn, "gaunt rows at multiples of %s" % sm.used, tu_.line_of(tu_.func(fn)),
+                          "%s reads row k of the derivative table at offset k * (%s); the table is a (5, %s) array whose row "
+                          "length is the argument %s%s: every row but the first is read from the wrong place unless the two "
+                          "happen to be equal" % (fn, sm.used, sm.declared, sm.declared,
+                                                  " (bound to <table>.shape[1] at %s:%d)" % (bind[1], bind[2]) if bind else ""),
+                          instance=inst_s)
+            continue
+        chk.ok("l1-order", inst_s)
         shift = 1 if plane else 0  # SDMXylm_grad: plane 0 is the value, planes 1..3 the derivatives
         for row, (mid, node) in sorted(rows.items()):
             inst = "%s row %d" % (fn, row)
@@ -468,6 +538,136 @@ def rule_sph_twin(chk, tus):
                           "the real spherical harmonic l=%d, m=%+d has %s in recursive_sph_harm and in "
                           "recursive_sph_harm_deriv (loops executed for lmax=%d): %s  vs  %s" % (
                               l, m, what, SPH_LMAX, a[k].text()[:110], b[k].text()[:110]), instance=inst)
+
+
+# ----------------------------------------------------------------------------------------------
+# sph-harmonic: every generated Y_lm is a harmonic polynomial of degree l
+# ----------------------------------------------------------------------------------------------
+def sph_exact(tu, lmax):
+    """res[k] of recursive_sph_harm as polynomials in r[0..2] with NUMERIC recursion coefficients: the set-up
+    routine is executed concretely too (literal loop bounds), square roots of rationals are kept exactly in a
+    normal form over square roots of primes."""
+    nlm = (lmax + 1) ** 2
+    ev0 = tc.Ev(tu)
+    ev0.unroll = ev0.expand = ev0.exact_roots = ev0.inline_calls = True
+    ev0.lenient = True
+    ps = tu.params("setup_sph_harm_buffer")
+    if len(ps) != 1 or tc.ptype(ps[0]) != "int":
+        raise core.AnalysisError("setup_sph_harm_buffer no longer takes the table size only")
+    env0 = tc.new_env()
+    env0["vals"][ps[0]["id"]] = Poly.const(nlm)
+    ev0.block(tu.body("setup_sph_harm_buffer"), env0)
+    tables = {}
+    for (root, idx), v in env0["mem"].items():
+        if root.startswith("member:") and Poly(dict(idx)).is_const():
+            tables[(root.split("@")[0], idx)] = v
+    if len(tables) < 4 * (lmax + 1):
+        raise core.AnalysisError("setup_sph_harm_buffer: recursion coefficient tables were not evaluated (%d entries; %s)" % (
+            len(tables), ev0.skipped[:1]))
+    ga = tc.global_const_arrays(tu)
+    fname = "recursive_sph_harm"
+    ps = tu.params(fname)
+    rp = [p for p in ps if tc.ptype(p) == "double *"]
+    ev = tc.Ev(tu)
+    ev.unroll = ev.expand = ev.exact_roots = ev.inline_calls = True
+    ev.concrete = {"member:sphbuf.lmax": lmax, "member:sphbuf.lp1": lmax + 1, "member:sphbuf.nlm": nlm}
+    env = tc.new_env({rp[0]["id"]: "R", rp[1]["id"]: "RES"})
+    env["mem_by_type"] = tables
+    for name, vals in ga.items():
+        for i, v in enumerate(vals):
+            env["mem"][("ptr:" + name, Poly.const(i).canon())] = Poly.const(v)
+    ev.block(tu.body(fname), env)
+    out = {}
+    for (root, idx), v in env["mem"].items():
+        if root == "RES":
+            k = Poly(dict(idx)).const_value()
+            if k is not None:
+                out[int(k)] = v
+    return out
+
+
+def _xyz_split(p):
+    """polynomial in R[0..2] -> {(a, b, c): coefficient Poly over the remaining (numeric) atoms}"""
+    out = {}
+    for m, c in p.t.items():
+        ex = [0, 0, 0]
+        rest = []
+        for a, e in m:
+            if a[0] == "elem" and a[1] == "R":
+                i = Poly(dict(a[2])).const_value()
+                if i is None or e.denominator != 1 or e < 0 or not (0 <= i <= 2):
+                    raise core.AnalysisError("spherical harmonic is not a polynomial in r[0..2]")
+                ex[int(i)] += int(e)
+            elif a[0] == "num":
+                rest.append((a, e))
+            else:
+                raise core.AnalysisError("spherical harmonic still contains the symbol %s" % tc.atom_text(a))
+        key = tuple(ex)
+        out[key] = out.get(key, Poly()) + Poly({tuple(rest): c})
+    return {k: v for k, v in out.items() if v.t}
+
+
+def _laplacian_of_homogenised(terms, l):
+    """terms {(a,b,c): coef}: multiply every term of degree d < l by (x^2+y^2+z^2)^((l-d)/2) (the generators work on
+    the unit sphere, where that factor is 1) and return the Laplacian, term by term"""
+    hom = {}
+    for (a, b, c), cf in terms.items():
+        d = a + b + c
+        if d > l or (l - d) % 2:
+            return None
+        k = (l - d) // 2
+        # (x^2 + y^2 + z^2)^k expanded by the multinomial theorem
+        from math import factorial
+        for i in range(k + 1):
+            for j in range(k - i + 1):
+                h = k - i - j
+                mult = factorial(k) // (factorial(i) * factorial(j) * factorial(h))
+                key = (a + 2 * i, b + 2 * j, c + 2 * h)
+                hom[key] = hom.get(key, Poly()) + cf.scale(mult)
+    lap = {}
+    for (a, b, c), cf in hom.items():
+        for axis, e in enumerate((a, b, c)):
+            if e >= 2:
+                key = [a, b, c]
+                key[axis] -= 2
+                key = tuple(key)
+                lap[key] = lap.get(key, Poly()) + cf.scale(e * (e - 1))
+    return {k: v for k, v in lap.items() if v.t}
+
+
+def rule_sph_harmonic(chk, tus):
+    tu = tus[C_SPH]
+    res = sph_exact(tu, SPH_LMAX)
+    nlm = (SPH_LMAX + 1) ** 2
+    if sorted(res) != list(range(nlm)):
+        raise core.AnalysisError("recursive_sph_harm does not fill res[0..%d) for lmax=%d" % (nlm, SPH_LMAX))
+    for k in range(nlm):
+        l = 0
+        while (l + 1) ** 2 <= k:
+            l += 1
+        m = k - l * l - l
+        inst = "Y(l=%d, m=%+d) is a harmonic polynomial of degree %d" % (l, m, l)
+        terms = _xyz_split(res[k])
+        if not terms:
+            raise core.AnalysisError("recursive_sph_harm: res[%d] evaluates to 0" % k)
+        lap = _laplacian_of_homogenised(terms, l)
+        if lap is None:
+            degs = sorted({sum(key) for key in terms})
+            chk.violation("sph-harmonic", F[C_SPH], "recursive_sph_harm", "res[%d] (l=%d, m=%+d)" % (k, l, m),
+                          tu.line_of(tu.func("recursive_sph_harm")),
+                          "Y(l=%d, m=%+d) contains terms of degree %s in (x,y,z); a spherical harmonic of order l restricted "
+                          "to the unit sphere has degrees l, l-2, ... only" % (l, m, degs), instance=inst)
+        elif lap:
+            ex = sorted(lap.items())[0]
+            chk.violation("sph-harmonic", F[C_SPH], "recursive_sph_harm", "res[%d] (l=%d, m=%+d)" % (k, l, m),
+                          tu.line_of(tu.func("recursive_sph_harm")),
+                          "the polynomial generated for Y(l=%d, m=%+d) (recursion coefficients taken from "
+                          "setup_sph_harm_buffer, loops executed for lmax=%d) is not harmonic: its Laplacian has the term "
+                          "%s * x^%d y^%d z^%d.  A recursion term is missing or a coefficient of the tables coef0/coef1/c0/c1 "
+                          "is wrong, so the function is no longer an eigenfunction of rotations" % (
+                              l, m, SPH_LMAX, ex[1].text()[:60], ex[0][0], ex[0][1], ex[0][2]), instance=inst)
+        else:
+            chk.ok("sph-harmonic", inst, nontrivial=l > 1)
 
 
 # ----------------------------------------------------------------------------------------------
@@ -633,7 +833,10 @@ def rule_xyz_slots(chk, tus):
     # fill_l1_coeff_*: python passes column offset 3*i1; C must write component c to column offset+c with the
     # rows of component c (checked against the table in l1-order); here: the three components are distinct
     for fn in ("fill_l1_coeff_fwd", "fill_l1_coeff_bwd"):
-        ra = c_gaunt_row_axes(tu, fn, 2, 1, ("nlm",), None)
+        try:
+            ra = c_gaunt_row_axes(tu, fn, 2, 1, ("nlm",), None)
+        except StrideMismatch:
+            continue  # reported by l1-order
         inst = "%s column offsets %s" % (fn, sorted(set(ra.values())))
         if sorted(set(ra.values())) == [0, 1, 2]:
             chk.ok("xyz-slots", inst)
@@ -1036,6 +1239,8 @@ def _analyse_own(chk):
                          "SDMXylm_yzx2xyz and the derivative-table rows")
     chk.rule("sph-twin", "recursive_sph_harm and recursive_sph_harm_deriv give identical polynomials for every (l,m), l <= %d "
                          "(loops executed concretely)" % SPH_LMAX)
+    chk.rule("sph-harmonic", "each Y_lm generated by recursive_sph_harm with the tables of setup_sph_harm_buffer (both executed "
+                             "for lmax = %d, exact arithmetic over square roots) is a harmonic polynomial of degree l" % SPH_LMAX)
     chk.rule("xyz-slots", "feature slots ix+c are paired with Cartesian component c in the add_lp1_* / fill_l1_coeff_* functions")
     chk.rule("setup-invariance", "python set-up values derived from mol.atom_coords() reach scalars only through "
                                  "rotation/translation-invariant reductions of position differences")
@@ -1048,12 +1253,14 @@ def _analyse_own(chk):
     chk.count("C translation units", 3)
     chk.guard(rule_l1_order, tus)
     chk.guard(rule_sph_twin, tus)
+    chk.guard(rule_sph_harmonic, tus)
     chk.guard(rule_xyz_slots, tus)
     chk.guard(rule_translation, tus)
     chk.guard(rule_setup_invariance)
     chk.guard(rule_key_domain)
     chk.floor("l1-order", 9, "2 generators + dirs + reorder + 3 consumers x 5 rows = 19")
     chk.floor("sph-twin", 25, "(6+1)^2 values")
+    chk.floor("sph-harmonic", 25, "(6+1)^2 = 49 values")
     chk.floor("xyz-slots", 8, "5 C functions x 3 slots + 2 column layouts")
     chk.floor("setup-invariance", 6, "15 position sources + 2 invariant reductions")
     chk.floor("key-domain", 8, "12 tables + 1 once-per-key block + 4 producer/consumer links")
@@ -1151,6 +1358,10 @@ def mutants(tree):
         Mutant("ylm tables shared per element", GI, fn=_share_ylm, expect="key-domain"),
         Mutant("deduplicated ylm blocks, offset from the running total", GI, fn=_dedup_stale, expect="key-domain-stale"),
         Mutant("deduplicated ylm blocks, per-key temporary reused", GI, fn=_dedup_temp, expect="key-domain-stale"),
+        Mutant("coef0 table loses its last admissible entry", F[C_SPH], "if (m + 2 <= l) {", "if (m + 2 < l) {", expect="sph-harmonic"),
+        Mutant("c1 recursion coefficient wrong", F[C_SPH], "sqrt((double)(2 * l + 3) / (2 * l - 1)) * (double)l / (l + 1);",
+               "sqrt((double)(2 * l + 3) / (2 * l + 1)) * (double)l / (l + 1);", expect="sph-harmonic"),
+        Mutant("Gaunt rows addressed with the atom's nlm", F[C_SDMX], fn=_atom_stride, expect="l1-order"),
         Mutant("SDMXylm_loop: atom y taken from z", F[C_SDMX], "gridy[g] - atom_coords[3 * ia + 1];", "gridy[g] - atom_coords[3 * ia + 2];",
                expect="translation"),
     ]
@@ -1183,6 +1394,18 @@ def _dedup_temp(text):
            "            full_ylm_loc = np.append(full_ylm_loc, ylm_loc_tab[symb] + ystart)\n")
     return text.replace(_YLM_OLD, new, 1).replace("        full_ylm = np.empty((0, nlm), dtype=np.float64)\n",
                                                   "        full_ylm = np.empty((0, nlm), dtype=np.float64)\n        ylm_done = set()\n", 1)
+
+
+def _atom_stride(text):
+    a = "        double *gauntxp_l = gaunt_vl + 1 * gaunt_nlm;\n"
+    i = text.find("void SDMXylm_grad(")
+    if i < 0 or a not in text[i:]:
+        return None
+    head, tail = text[:i], text[i:]
+    for k, nm in ((1, "xp"), (2, "ym"), (3, "yp"), (4, "z")):
+        tail = tail.replace("double *gaunt%s_l = gaunt_vl + %d * gaunt_nlm;" % (nm, k),
+                            "double *gaunt%s_l = gaunt_vl + %d * (ylm_atom_loc[1] - ylm_atom_loc[0]);" % (nm, k), 1)
+    return head + tail
 
 
 def _share_ylm(text):
